@@ -1107,6 +1107,17 @@ fn corrupt_builder(ctx: &mut Ctx, s: &mut Session) -> Step {
     bld.enpassant(s.model.ep.map(sut::file));
     bld.half_move_clock(s.model.hmc.min(60000) as u16);
     bld.full_move_clock(s.model.fmn.min(60000) as u16);
+    // the builder object is re-used: a first board is built from it (and dropped) before the
+    // damage is done, so whatever the builder remembers about that build is stale afterwards
+    if ctx.tape.choose(2) == 1 {
+        let first = op(Op::Build, || bld.build());
+        ctx.stats.bump("fault.restart.builder-reused-after-build");
+        if let Err(e) = &first {
+            let n = op(Op::Print, || format!("{e:?}").len());
+            ctx.observe_u64(n as u64);
+        }
+        ops.push("build");
+    }
     let n = ctx.tape.range(1, 3);
     for _ in 0..n {
         match ctx.tape.choose(6) {
@@ -1300,7 +1311,13 @@ fn interleave_twin(ctx: &mut Ctx, s: &Session, l1: &[Mv]) -> Step {
         return Ok(());
     }
     let mut t = s.model.clone();
-    match ctx.tape.choose(4) {
+    let variant = if ctx.mode == Prop::C03 { *ctx.tape.pick(&[4u32, 4, 0, 1, 2]) } else { ctx.tape.choose(5) };
+    match variant {
+        4 => {
+            // the same position on the other side of the 100-half-move line (boards that
+            // compare equal, yet one is drawn and the other is not)
+            t.hmc = if t.hmc >= 100 { ctx.tape.choose(100) } else { 100 + ctx.tape.choose(3) };
+        }
         0 => {
             t.stm ^= 1;
             t.ep = None;
@@ -1338,6 +1355,10 @@ fn interleave_twin(ctx: &mut Ctx, s: &Session, l1: &[Mv]) -> Step {
     ctx.stats.bump("fault.sched.interleaved-twin-session");
     let lt = check_legals(ctx, &twin)?;
     match ctx.mode {
+        Prop::C03 => {
+            mon_c03_status(ctx, &twin, &lt)?;
+            mon_c03_status(ctx, s, l1)?;
+        }
         Prop::C02 => {
             mon_c02(ctx, &twin, &lt, 1)?;
             mon_c02(ctx, s, l1, 1)?;
@@ -1345,8 +1366,10 @@ fn interleave_twin(ctx: &mut Ctx, s: &Session, l1: &[Mv]) -> Step {
         Prop::C07 => {
             mon_c01(ctx, &twin, &lt, 1)?;
             mon_c02(ctx, &twin, &lt, 1)?;
+            mon_c03_status(ctx, &twin, &lt)?;
             mon_c01(ctx, s, l1, 1)?;
             mon_c02(ctx, s, l1, 1)?;
+            mon_c03_status(ctx, s, l1)?;
         }
         _ => {
             mon_c01(ctx, &twin, &lt, 1)?;
@@ -1659,7 +1682,10 @@ fn one_ply(ctx: &mut Ctx, st: &mut LoopState, ply: u32) -> Step<Flow> {
                 mon_c02(ctx, &st.s, &l1, st.cfg.byz)?;
                 interleave_twin(ctx, &st.s, &l1)?;
             }
-            Prop::C03 => mon_c03_status(ctx, &st.s, &l1)?,
+            Prop::C03 => {
+                mon_c03_status(ctx, &st.s, &l1)?;
+                interleave_twin(ctx, &st.s, &l1)?;
+            }
             Prop::C05 => mon_c05(ctx, &st.s)?,
             Prop::C07 => {
                 text_forms(ctx);
